@@ -108,8 +108,23 @@ var catalogue = map[string][]rungraph.Node{
 	"walk-while-finishing": {{Reqs: [][]int{{1, 2}}}, {Reqs: [][]int{{3}}}, {Reqs: [][]int{{6, 1}}}, {Reqs: [][]int{{4, 5}}}, {}, {}, {}},
 }
 
+// fair: depth-first schedules pass the oldest goroutines over for longer than the default allows
+func fair(lifo bool) int {
+	if lifo {
+		return 400
+	}
+	return 0
+}
+
 func TestC05(t *testing.T) {
 	ev.Explore(run, t, "digraph", run.N(2500, 40000), gen, exec)
+	// the catalogue graphs under priority schedules (PCT): every ordering bug of small depth has a
+	// known lower bound on its probability per run
+	names := []string{"walk-while-finishing", "diamond", "fork-to-cycle", "cycle-off-root", "three-cycle", "fan", "two-cycle", "self-loop"}
+	ev.Explore(run, t, "catalogue-pct", run.N(2500, 40000), func(rt *rapid.T) rungraph.Case {
+		name := rapid.SampledFrom(names).Draw(rt, "graph")
+		return rungraph.Case{Nodes: catalogue[name], Root: 0, Pol: rungraph.GenPCT(rt, 130)}
+	}, exec)
 }
 
 // TestC05Exhaustive enumerates, for each catalogue graph, every run-until-block schedule
@@ -126,6 +141,8 @@ func TestC05Exhaustive(t *testing.T) {
 		preempt []int
 		choices []int
 		starve  bool
+		park    []bool
+		lifo    bool
 	}
 	var all []sched
 	for _, name := range names {
@@ -164,7 +181,7 @@ func TestC05Exhaustive(t *testing.T) {
 			if s.starve {
 				mode = "starve"
 			}
-			return rungraph.Case{Nodes: catalogue[s.g], Root: 0, Pol: cosched.Policy{Mode: mode, Preempt: s.preempt, Choices: s.choices}}, true
+			return rungraph.Case{Nodes: catalogue[s.g], Root: 0, Pol: cosched.Policy{Mode: mode, Preempt: s.preempt, Choices: s.choices, Park: s.park, Lifo: s.lifo, FairAge: fair(s.lifo)}}, true
 		}
 	}, exec)
 	run.Extra("exhaustive_catalogue_schedules", len(all))
